@@ -190,6 +190,94 @@ theorem Stack_readd_new_contract (valid : Bytes → Bool) (eval : Bytes → Rout
     rw [(Stack_latest h').1, hd] at hd1; cases hd1
     exact ⟨hv.symm, rs, hb, hr⟩
 
+/-- **Every answer given in a target's name is computed from its LATEST description** — the general form of the clause
+    "the returned route data comes from the latest description", for ANY history and whatever that description is:
+    if the specification state holds `d0` for `T`, then a service routed to `T` is listed by `d0` and carries `d0`'s
+    version, and a pattern lookup answering `T` returns a route built from `d0` with `d0`'s version. -/
+theorem Stack_routes_from_latest (valid : Bytes → Bool) (eval : Bytes → Route → Outcome) (h : List Stack.Op) (T : Name)
+    (d0 : Desc) (hd : (specLatest h).desc T = some d0) :
+    let st := run valid St.init h
+    (∀ S r, st.svc.routes S = some r → r.target = T → listed d0.services S ∧ r.ver = d0.ver) ∧
+    (∀ m path v r, routeHTTP st.present eval st.pat.static m path = .found T v r →
+        v = d0.ver ∧ ∃ rs, built valid d0 m = some rs ∧ r ∈ rs) := by
+  intro st
+  refine ⟨?_, ?_⟩
+  · intro S r hr ht
+    obtain ⟨_, hs, _⟩ := Stack_run_eq_compile valid h
+    have hr' : (SvcState.init.run (toC06 h)).routes S = some r := by rw [← hs]; exact hr
+    obtain ⟨h1, h2, _⟩ := C06_service_latest (toC06 h) S r hr'
+    rw [(Stack_latest h).1, ht] at h1 h2
+    obtain ⟨d, hd1, hd2⟩ := h2
+    rw [hd] at hd1; cases hd1
+    refine ⟨hd2, ?_⟩
+    simp only [specSvcRoute, hd, Option.map_eq_some_iff] at h1
+    obtain ⟨i, _, hi⟩ := h1
+    rw [← hi]
+  · intro m path v r hf
+    obtain ⟨h1, _, _⟩ := Stack_run_eq_compile valid h
+    have hf' : routeHTTP st.present eval (PatState.init.run valid (toC06 h)).static m path = .found T v r := by
+      rw [← h1]; exact hf
+    obtain ⟨d, hd1, hv, _, rs, hb, hr, _⟩ := C06_pattern_latest valid st.present eval _ m path T v r hf'
+    rw [(Stack_latest h).1, hd] at hd1; cases hd1
+    exact ⟨hv.symm, rs, hb, hr⟩
+
+/-- **A delivered contract change replaces ALL the data** — for EVERY `d`, also one that keeps every service, method, HTTP
+    method and template of the previous description and differs only in what lies behind them (body mappings, message
+    types, streaming kinds): after `update T d` of a present `T` the specification state holds exactly `d` for `T`, hence
+    (`Stack_routes_from_latest`) every service route and every pattern route answered in `T`'s name is computed from `d`
+    and carries `d`'s version.  There is no "nothing changed for routing" shortcut in the settled state. -/
+theorem Stack_update_replaces_data (valid : Bytes → Bool) (eval : Bytes → Route → Outcome) (h : List Stack.Op) (T : Name)
+    (d : Desc) (hpres : presentOf h T = true) :
+    let h' := h ++ [.update T d]
+    let st := run valid St.init h'
+    (specLatest h').desc T = some (named T d) ∧
+    (∀ S r, st.svc.routes S = some r → r.target = T → listed (named T d).services S ∧ r.ver = d.ver) ∧
+    (∀ m path v r, routeHTTP st.present eval st.pat.static m path = .found T v r →
+        v = d.ver ∧ ∃ rs, built valid (named T d) m = some rs ∧ r ∈ rs) := by
+  intro h' st
+  have hd : (specLatest h').desc T = some (named T d) := by
+    have hl : ((specLatest h) T).isSome = true := by
+      have := (Stack_latest h).2 T
+      rw [(Stack_latest h).1, hpres] at this
+      simpa [Latest.watched] using this.symm
+    simp only [h', specLatest, List.foldl_append, List.foldl_cons, List.foldl_nil, latestStep]
+    have hl' : ((List.foldl latestStep Latest.init h) T).isSome = true := hl
+    simp [hl', Latest.desc, upd_same]
+  exact ⟨hd, Stack_routes_from_latest valid eval h' T (named T d) hd⟩
+
+/-- **Remove and Add of one name started together** (the `X` operation of the area): whichever call takes effect first —
+    `Remove(T); Add(T, d)`, or `Add(T, d)` refused as a duplicate, then `Remove(T)`, then the Add repeated — the settled
+    state is the SAME: `T` present in front of the new description `d`, every answer in its name computed from `d`.
+    In particular the name is never left neither present nor addable. -/
+theorem Stack_swap (valid : Bytes → Bool) (eval : Bytes → Route → Outcome) (h : List Stack.Op) (T : Name) (d : Desc)
+    (hpres : presentOf h T = true) :
+    run valid St.init (h ++ [.add T (some d), .remove T, .add T (some d)]) =
+      run valid St.init (h ++ [.remove T, .add T (some d)]) ∧
+    (run valid St.init (h ++ [.remove T, .add T (some d)])).present T = true ∧
+    (specLatest (h ++ [.remove T, .add T (some d)])).desc T = some (named T d) := by
+  have happ : ∀ (a b : List Stack.Op), run valid St.init (a ++ b) = run valid (run valid St.init a) b := by
+    intro a b; simp [run, List.foldl_append]
+  refine ⟨?_, ?_, ?_⟩
+  · have h1 := (Stack_failed_add_no_trace valid h T (some d)).2.1 hpres
+    rw [show h ++ [Stack.Op.add T (some d), .remove T, .add T (some d)] =
+      (h ++ [Stack.Op.add T (some d)]) ++ [.remove T, .add T (some d)] by simp, happ, h1, ← happ]
+  · have habs : presentOf (h ++ [Stack.Op.remove T]) T = false := by
+      simp only [presentOf, List.foldl_append, List.foldl_cons, List.foldl_nil, presentStep]
+      have : List.foldl presentStep (fun _ => false) h T = true := hpres
+      simp [this, upd_same]
+    have hp := (Stack_run_eq_compile valid ((h ++ [Stack.Op.remove T]) ++ [.add T (some d)])).2.2
+    rw [show h ++ [Stack.Op.remove T, .add T (some d)] = (h ++ [Stack.Op.remove T]) ++ [.add T (some d)] by simp, hp]
+    simp only [presentOf, List.foldl_append, List.foldl_cons, List.foldl_nil] at habs ⊢
+    generalize presentStep (List.foldl presentStep (fun _ => false) h) (Stack.Op.remove T) = p at habs ⊢
+    simp [presentStep, habs, upd_same]
+  · have habs : presentOf (h ++ [Stack.Op.remove T]) T = false := by
+      simp only [presentOf, List.foldl_append, List.foldl_cons, List.foldl_nil, presentStep]
+      have : List.foldl presentStep (fun _ => false) h T = true := hpres
+      simp [this, upd_same]
+    have := (Stack_readd_new_contract valid eval (h ++ [Stack.Op.remove T]) T d habs).1
+    rw [show h ++ [Stack.Op.remove T, .add T (some d)] = (h ++ [Stack.Op.remove T]) ++ [.add T (some d)] by simp]
+    exact this
+
 /-- **Settled routing, transcoded entries** (HTTP / WebSocket read the pattern table): for a request that is not
     contested between present targets, the lookup answers exactly as the table built from the latest contracts
     of the present targets — in whatever order the targets are enumerated. -/
